@@ -369,7 +369,10 @@ Inductive ev :=
 | EPollGone (rid : Z)               (* PushOperators reaches the operator of a region PD no longer knows *)
 | EBreak (st : Z)                   (* the heartbeat stream of a store breaks: pushes into it fail from now on *)
 | ERebind (st : Z)                  (* the store binds a new stream; the observation lists what the new stream receives at once *)
-| ERecordStore (n : Z).             (* the TTL store behind opRecords (pkg/cache): n keys whose old entry has expired but is not
+| ERecordStore (n : Z)
+| EEntryRace (n : Z).               (* an exported method of the controller that the model does not know (found by reflection; none in
+                                       the unchanged tree) is called again and again while n operators are being added: the result is
+                                       the number of operators that are neither running nor ended-and-recorded afterwards *)             (* the TTL store behind opRecords (pkg/cache): n keys whose old entry has expired but is not
                                        collected yet are written again while the collector runs; the result is the number of
                                        fresh entries that are missing afterwards *)
 
@@ -545,6 +548,7 @@ Definition ctl_step (c : ctl) (e : ev) : ctl * obs :=
   | EBreak st => let c' := set_unbound c (st :: unbound c) in (c', snapshot c' (-1) [] None DNone)
   | ERebind st => let c' := set_unbound c (filter (fun x => negb (x =? st)) (unbound c)) in (c', snapshot c' (-1) [] None DNone)
   | ERecordStore _ => (c, snapshot c 0 [] None DNone)     (* a record that has just been written stays until it expires *)
+  | EEntryRace _ => (c, snapshot c 0 [] None DNone)       (* whatever the entry point does: nobody is lost *)
   end.
 
 Definition init (maxw : Z) : ctl := Ctl [] [] [] [] [] [] [] [] maxw [].
@@ -731,6 +735,7 @@ Definition monitor_step (m : mon) (e : ev) (o : obs) : mon * option string :=
   let v_rec :=
     match e with
     | ERecordStore _ => if b_res o =? 0 then None else Some "C09:record-store-loses-fresh-entry"
+    | EEntryRace _ => if b_res o =? 0 then None else Some "C09:unknown-entry-point-loses-operators"
     | _ => None
     end in
   let v_stale :=
